@@ -8,6 +8,7 @@ C09 - rendering keeps the text.  Claimed for ONE clause only: docstring fields a
   R09.6 a slot filled piecewise by two field kinds is created only while empty
   R09.7 a reST directive declaring a body reads self.content on every path through run()
   R09.8 a docutils visit method that prunes its subtree renders all of it (no single child picked by index)
+  R09.9 a function that replaces a field list uses or keeps every field of it
 Does not decide: word-for-word preservation, ordering, literal/doctest blocks, napoleon conversion (equalities over runtime strings).
 """
 from __future__ import annotations
@@ -296,6 +297,42 @@ def run(repo: Repo, chk: Check, thorough: bool = False) -> None:
     if n_slots < 4:
         raise AnalysisError(f'R09.6: {n_slots} creations of a piecewise-filled slot found in the field handlers (4 confirmed: return/returntype/yield/yieldtype)')
     chk.require('R09.6', 4)
+
+    # ------------------------------------------------------------------ R09.9
+    # a function that replaces the field list of a parsed docstring (`pdoc.fields = kept`) after looping over it decides the fate of every
+    # field: each iteration must either use the field (its body becomes the description / the type) or keep it in the new list
+    n_part = 0
+    for f in sorted(repo.funcs.values(), key=lambda f: f.qn):
+        if not f.mod.name.startswith('pydoctor.') or '.test' in f.mod.name:
+            continue
+        repl = [n for n in f.walk() if isinstance(n, ast.Assign) and any(isinstance(t, ast.Attribute) and t.attr == 'fields' for t in n.targets)]
+        if not repl:
+            continue
+        for lp in [n for n in f.walk() if isinstance(n, ast.For) and isinstance(n.iter, ast.Attribute) and n.iter.attr == 'fields' and isinstance(n.target, ast.Name)]:
+            n_part += 1
+            v = lp.target.id
+            cfl = CFG(f)
+            def _takes(e: ast.AST) -> bool:
+                # the field's content is taken: its body() is read, or the field object itself is handed on (append(field), handle(field))
+                for y in ast.walk(e):
+                    if isinstance(y, ast.Call) and isinstance(y.func, ast.Attribute) and y.func.attr in ('body', 'format') and isinstance(y.func.value, ast.Name) and y.func.value.id == v:
+                        return True
+                    if isinstance(y, ast.Call) and any(isinstance(a, ast.Name) and a.id == v for a in list(y.args) + [k.value for k in y.keywords]):
+                        return True
+                return False
+            users = [st for st in (x for b in lp.body for x in ast.walk(b)) if isinstance(st, (ast.Assign, ast.AugAssign, ast.AnnAssign, ast.Expr, ast.Return)) and
+                     st.value is not None and _takes(st.value)]
+            if not lp.body:
+                continue
+            r = cfl.reachable(lp.body[0], avoid_nodes=users, no_exc=True)
+            dropped = id(lp) in r and lp.body[0] not in users
+            chk.ob('R09.9', f'{f.qn} :: every field of the replaced list is used or kept', not dropped,
+                   f'each iteration passes through one of: {"; ".join(sorted({norm(u)[:40] for u in users}))[:160]}' if not dropped else
+                   f'an iteration can end without using `{v}` or keeping it, and the list is then replaced (`{norm(repl[0])[:40]}`): such a field disappears '
+                   'from the documentation without a warning', repo.loc(f.mod, lp))
+    if n_part < 1:
+        raise AnalysisError('R09.9: no function that partitions and replaces a field list was found (ModuleVistor._handlePropertyDef confirmed)')
+    chk.require('R09.9', 1)
 
     # ------------------------------------------------------------------ R09.7
     # a reST directive that declares a body (has_content = True) consumes it whatever its arguments are: every normal path through
